@@ -235,7 +235,10 @@ def r4_r5b_on_command(ctx, F):
     am = [c for c in b.calls if c.bb in blocks and c.is_('Entry::and_modify')]
     oi = [c for c in b.calls if c.bb in blocks and c.is_('Entry::or_insert_with', 'Entry::or_insert')]
     ins = [c for c in b.calls if c.bb in blocks and c.is_('HashMap::insert')]
-    ok = (len(am) == 1 and len(oi) == 1) or len(ins) == 1
+    # ... or spelled out: `match map.entry(k) { Occupied(mut e) => { e.insert(v); } Vacant(e) => { e.insert(v); } }`
+    occ = [c for c in b.calls if c.bb in blocks and c.is_('OccupiedEntry::insert')]
+    vac = [c for c in b.calls if c.bb in blocks and c.is_('VacantEntry::insert')]
+    ok = (len(am) == 1 and len(oi) == 1) or len(ins) == 1 or (len(occ) == 1 and len(vac) == 1)
     ctx.check(ok, 'C17-R5', 'set-timer-overwrites', b,
               good='SetTimer writes the deadline on both the vacant and the occupied path',
               bad='on_command: SetTimer does not overwrite the deadline of an already pending timer '
@@ -256,8 +259,9 @@ def r4_r5b_on_command(ctx, F):
         if not (len(nows) == 1 and len(adds) == 1):
             okc = False
     from taint import origins
-    for c in ins:
-        org = origins(b, c.args[2]) if len(c.args) > 2 else set()
+    for c in ins + occ + vac:
+        vop = (c.args[2] if len(c.args) > 2 else None) if c in ins else (c.args[1] if len(c.args) > 1 else None)
+        org = origins(b, vop) if vop is not None else set()
         good = bool(org)
         for o in org:
             if isinstance(o, (str, tuple)) or not o.is_('Add::add'):
@@ -291,8 +295,9 @@ def r4_r5b_on_command(ctx, F):
                     if o.get('k') in ('copy', 'move') and 'time::Duration' in b.locals[o['place']['l']]['ty'] and \
                             'Range<' not in b.locals[o['place']['l']]['ty']:
                         dur_ops.append(o)
-    for c in ins:
-        for o in origins(b, c.args[2]) if len(c.args) > 2 else ():
+    for c in ins + occ + vac:
+        vop = (c.args[2] if len(c.args) > 2 else None) if c in ins else (c.args[1] if len(c.args) > 1 else None)
+        for o in origins(b, vop) if vop is not None else ():
             if not isinstance(o, (str, tuple)) and o.is_('Add::add') and len(o.args) > 1:
                 dur_ops.append(o.args[1])
     leaves = set()
@@ -313,8 +318,9 @@ def r4_r5b_on_command(ctx, F):
     # CancelTimer never inserts
     blocks = arm_blocks(b, sw, 'CancelTimer')
     bad = [c for c in b.calls if c.bb in blocks and c.is_('Entry::or_insert_with', 'Entry::or_insert', 'HashMap::insert',
-                                                          'Entry::or_default', 'Entry::insert_entry')]
-    eff = [c for c in b.calls if c.bb in blocks and c.is_('Entry::and_modify', 'HashMap::remove', 'HashMap::get_mut')]
+                                                          'Entry::or_default', 'Entry::insert_entry', 'VacantEntry::insert')]
+    eff = [c for c in b.calls if c.bb in blocks and c.is_('Entry::and_modify', 'HashMap::remove', 'HashMap::get_mut',
+                                                          'OccupiedEntry::insert', 'OccupiedEntry::remove')]
     ctx.check(not bad and len(eff) == 1, 'C17-R5', 'cancel-never-arms', b,
               good='CancelTimer only disarms an existing entry',
               bad='on_command: CancelTimer can create an entry (%s) or does nothing' % [c.short for c in bad])
